@@ -4,7 +4,7 @@ All jitted kernels that read or write arrays through computed indices (simplex_g
 k_array_rank_jit, cartesian/_repeat_1d, _cartesian_index, _cartesian_nearest_indices) are executed in a second
 interpreter under NUMBA_BOUNDSCHECK=1 (an out-of-bounds access is an IndexError instead of heap corruption; a hard
 crash of that interpreter is attributed to the job it was running).  comb_jit (scalar arithmetic) runs in-process."""
-import sys, os, json, itertools, math, subprocess, tempfile
+import sys, os, json, itertools, math, subprocess, tempfile, shutil
 import numpy as np
 from common import *
 
@@ -245,6 +245,7 @@ def run(ctx):
                      ctx.coq_eval(IMPORTS, "comb_jit %s %s" % (zlit(N), zlit(k))))
 
     results = collect_jobs(ctx, jobs, started)
+    shutil.rmtree(ctx.jobdir, ignore_errors=True)
     by_kind = {}
     for (kind, _arg), res in zip(jobs, results):
         by_kind.setdefault(kind, []).append(res)
